@@ -172,11 +172,16 @@ def scn_rescaled_cut(variant, left_kind, right_kind, S, K, N):
         extra = {"max": _max_contract(mk, counter)} if mk.symbolic else None
         with symbolic_factories(tl, extra=extra, enabled=mk.symbolic):
             state = c.prefix(partials, weights, post, mats, freqs, props)
-            n_before = len(state["scalers"])
-            state.update(node=node, left=left, right=right)
+            # the code's temporaries are identified by ROLE, not by name (a renamed local is not an alarm)
+            SC = loopcut.local_by_role(state, lambda v: isinstance(v, list) and len(v) == 0, "the (empty) list the scalers are collected in", exclude=c.params)
+            PL = c.params[0]
+            if len(c.target_names) != 3:
+                raise Undecided("loop target is no longer a (node, left, right) triple: %s" % c.header)
+            n_before = len(state[SC])
+            state.update(dict(zip(c.target_names, (node, left, right))))
             tag, st2 = c.body(state)
-            out = st2["partials"]
-            scalers = st2["scalers"]
+            out = st2[PL]
+            scalers = st2[SC]
             cl = [("true", "loop_shape", c.kind == "for" and tag == "next", c.header),
                   ("true", "exactly_one_scaler_collected", len(scalers) == n_before + 1, "%d -> %d" % (n_before, len(scalers))),
                   ("true", "frame_only_partials[node]_written", all(out[m] is sentinels[m] for m in sentinels if m != node) and out[left] is R[left] and out[right] is R[right])]
@@ -215,9 +220,9 @@ def scn_rescaled_cut(variant, left_kind, right_kind, S, K, N):
             st3 = dict(st2)
             pl = list(out)
             pl[node] = root
-            st3["partials"] = pl
-            st3["scalers"] = [s1, s2]
-            st3["post_indexing"] = [[node, left, right]]
+            st3[PL] = pl
+            st3[SC] = [s1, s2]
+            st3[c.params[2]] = [[node, left, right]]
             res = c.suffix(st3)
         want = 0
         for n in range(N):
@@ -295,13 +300,17 @@ def scn_safe_cut(left_kind, right_kind, S, K, N):
         extra = {"max": _max_contract(mk, counter)} if mk.symbolic else None
         with symbolic_factories(tl, extra=extra, enabled=mk.symbolic):
             state = c.prefix(partials, weights, post, mats, freqs, props, el(thr) if mk.symbolic else float(thr))
-            resc0 = list(state["rescaled"])
-            state["rescaled"][left] = left_kind == "rescaled"
-            state["rescaled"][right] = right_kind == "rescaled"
-            n_before = len(state["scalers"])
-            state.update(node=node, left=left, right=right)
+            SC = loopcut.local_by_role(state, lambda v: isinstance(v, list) and len(v) == 0, "the (empty) list the scalers are collected in", exclude=c.params)
+            FL = loopcut.local_by_role(state, lambda v: isinstance(v, list) and len(v) > 0 and all(isinstance(b, bool) for b in v), "the per-node list of 'already rescaled' marks", exclude=c.params)
+            if len(c.target_names) != 3:
+                raise Undecided("loop target is no longer a (node, left, right) triple: %s" % c.header)
+            resc0 = list(state[FL])
+            state[FL][left] = left_kind == "rescaled"
+            state[FL][right] = right_kind == "rescaled"
+            n_before = len(state[SC])
+            state.update(dict(zip(c.target_names, (node, left, right))))
             tag, st2 = c.body(state)
-        out, scalers, flags = st2["partials"], st2["scalers"], st2["rescaled"]
+        out, scalers, flags = st2[c.params[0]], st2[SC], st2[FL]
         cl = [("true", "loop_shape", c.kind == "for" and tag == "next", c.header),
               ("true", "prefix_marks_nothing_rescaled", len(resc0) == 2 * T - 1 and not any(resc0), repr(resc0)),
               ("true", "frame_only_partials[node]_written", all(out[m] is sentinels[m] for m in sentinels) and out[left] is R[left] and out[right] is R[right]),
